@@ -42,6 +42,10 @@ pub fn packed_deltas(vals: &[i32], rng: &mut Rng) -> Vec<u8> {
 
 /// CFF2-style INDEX (`Index2`): u32 count, u8 offSize, (count+1) offsets, data
 pub fn index2(items: &[Vec<u8>], off_size: u8) -> B {
+    // the offsets must be representable: widen the offset size if the object data is too large
+    let total: usize = 1 + items.iter().map(|i| i.len()).sum::<usize>();
+    let need: u8 = if total < 0x100 { 1 } else if total < 0x1_0000 { 2 } else if total < 0x100_0000 { 3 } else { 4 };
+    let off_size = off_size.max(need);
     let mut b = B::new();
     b.f32(items.len() as u32);
     b.f8(off_size);
